@@ -12,7 +12,7 @@ Inductive op :=
 | ONewEntity
 | OUNew (ids : list nat)
 | OUNewRel (ids : list nat) (rels : list hrel)
-| ONewEntities (n : nat)
+| ONewEntities (n : nat) (nofn : bool)
 | OCopy (h : Z)
 | OUAdd (h : Z) (ids : list nat)
 | OUAddRel (h : Z) (ids : list nat) (rels : list hrel)
@@ -21,7 +21,7 @@ Inductive op :=
 | OWrite (h : Z) (c : nat) (v : Z)
 | OUSetRel (h : Z) (rels : list hrel)
 | ORemoveEntity (h : Z)
-| ORemoveEntities (f : nat) (brels : list hrel)
+| ORemoveEntities (f : nat) (brels : list hrel) (nofn : bool)
 | OReset
 | OShrink (stop0 : bool)
 | OFilterNew (unsafe : bool) (ids without : list nat) (excl : bool) (rels : list hrel)
@@ -39,7 +39,7 @@ Inductive op :=
 | OObsUnregister (o : nat)
 | OEmit (evt : nat) (h : Z) (comps : list nat)
 | OMapSet (h : Z) (c : nat) (v : Z)
-| ONewBatch (n : nat) (ids : list nat) (rels : list hrel) (vals : list (nat * Z))
+| ONewBatch (n : nat) (ids : list nat) (rels : list hrel) (vals : list (nat * Z)) (nofn : bool)
 | OExchangeBatch (f : nat) (brels : list hrel) (add rem : list nat) (rels : list hrel) (vals : list (nat * Z))
 | OSetRelBatch (f : nat) (brels : list hrel) (mids : list nat) (rels : list hrel)
 | OAlive (h : Z)
@@ -68,6 +68,8 @@ Definition ppair {A B} (pa : P A) (pb : P B) : P (A * B) := pbind pa (fun a => p
 Definition pnats := plist pnat.
 Definition prels : P (list hrel) := plist (ppair pnat pZ).
 Definition pvals : P (list (nat * Z)) := plist (ppair pnat pZ).
+(** optional trailing flag (absent = false) *)
+Definition pflag : P bool := fun l => match l with [] => Some (false, []) | x :: t => Some (Z.odd x, t) end.
 
 Notation "x <-- p ;; k" := (pbind p (fun x => k)) (at level 61, p at next level, right associativity).
 
@@ -80,7 +82,7 @@ Definition decode_op (l : list Z) : option op :=
         | 0 => pret ONewEntity args
         | 1 => (ids <-- pnats ;; pret (OUNew ids)) args
         | 2 => (ids <-- pnats ;; rels <-- prels ;; pret (OUNewRel ids rels)) args
-        | 3 => (n <-- pnat ;; pret (ONewEntities n)) args
+        | 3 => (n <-- pnat ;; nf <-- pflag ;; pret (ONewEntities n nf)) args
         | 4 => (h <-- pZ ;; pret (OCopy h)) args
         | 5 => (h <-- pZ ;; ids <-- pnats ;; pret (OUAdd h ids)) args
         | 6 => (h <-- pZ ;; ids <-- pnats ;; rels <-- prels ;; pret (OUAddRel h ids rels)) args
@@ -89,7 +91,7 @@ Definition decode_op (l : list Z) : option op :=
         | 9 => (h <-- pZ ;; c <-- pnat ;; v <-- pZ ;; pret (OWrite h c v)) args
         | 10 => (h <-- pZ ;; rels <-- prels ;; pret (OUSetRel h rels)) args
         | 11 => (h <-- pZ ;; pret (ORemoveEntity h)) args
-        | 12 => (f <-- pnat ;; rels <-- prels ;; pret (ORemoveEntities f rels)) args
+        | 12 => (f <-- pnat ;; rels <-- prels ;; nf <-- pflag ;; pret (ORemoveEntities f rels nf)) args
         | 13 => pret OReset args
         | 14 => (b <-- pbool ;; pret (OShrink b)) args
         | 15 => (u <-- pbool ;; ids <-- pnats ;; wo <-- pnats ;; ex <-- pbool ;; rels <-- prels ;; pret (OFilterNew u ids wo ex rels)) args
@@ -107,7 +109,7 @@ Definition decode_op (l : list Z) : option op :=
         | 27 => (o <-- pnat ;; pret (OObsUnregister o)) args
         | 28 => (e <-- pnat ;; h <-- pZ ;; cs <-- pnats ;; pret (OEmit e h cs)) args
         | 29 => (h <-- pZ ;; c <-- pnat ;; v <-- pZ ;; pret (OMapSet h c v)) args
-        | 30 => (n <-- pnat ;; ids <-- pnats ;; rels <-- prels ;; vals <-- pvals ;; pret (ONewBatch n ids rels vals)) args
+        | 30 => (n <-- pnat ;; ids <-- pnats ;; rels <-- prels ;; vals <-- pvals ;; nf <-- pflag ;; pret (ONewBatch n ids rels vals nf)) args
         | 31 => (f <-- pnat ;; br <-- prels ;; add <-- pnats ;; rem <-- pnats ;; rels <-- prels ;; vals <-- pvals ;; pret (OExchangeBatch f br add rem rels vals)) args
         | 32 => (f <-- pnat ;; br <-- prels ;; mids <-- pnats ;; rels <-- prels ;; pret (OSetRelBatch f br mids rels)) args
         | 33 => (h <-- pZ ;; pret (OAlive h)) args
@@ -239,8 +241,8 @@ Definition step_op (debug : bool) (o : op) : MW (list Z) :=
       fire_create_entity_if_has e m ;;;
       whenM (negb (is_nil rels)) (fire_create_entity_rel_if_has e m) ;;;
       ret (Zent e)
-  | ONewEntities n =>
-      w_new_entities n ;;; ret []
+  | ONewEntities n nofn =>
+      w_new_entities n (negb nofn) ;;; ret []
   | OCopy h =>
       e <- resolveH h ;;
       ne <- w_copy_entity e ;;
@@ -284,10 +286,10 @@ Definition step_op (debug : bool) (o : op) : MW (list Z) :=
       e <- resolveH h ;;
       check_locked ;;;
       storage_remove_entity e ;;; ret []
-  | ORemoveEntities f hbrels =>
+  | ORemoveEntities f hbrels nofn =>
       brels <- resolveR hbrels ;;
       br <- batch_rels f brels ;;
-      w_remove_entities f br ;;; ret []
+      w_remove_entities f br (negb nofn) ;;; ret []
   | OReset => w_reset ;;; ret []
   | OShrink stop0 => b <- w_shrink stop0 ;; ret [Zb b]
   | OFilterNew unsafe ids without excl hrels =>
@@ -358,9 +360,9 @@ Definition step_op (debug : bool) (o : op) : MW (list Z) :=
         m <- arch_mask_of_table tid ;;
         _ <- fire_set EvSetComponents e (mk_of_list [c]) m true ;; ret tt) ;;;
       ret []
-  | ONewBatch n ids hrels vals =>
+  | ONewBatch n ids hrels vals nofn =>
       rels <- resolveR hrels ;;
-      w_new_batch n ids rels vals ;;; ret []
+      w_new_batch n ids rels vals (negb nofn) ;;; ret []
   | OExchangeBatch f hbrels add rem hrels vals =>
       brels <- resolveR hbrels ;;
       rels <- resolveR hrels ;;
@@ -401,7 +403,7 @@ Definition step_op (debug : bool) (o : op) : MW (list Z) :=
 
 (** Which operations hand out new handles through their batch callback. *)
 Definition issues_from_log (o : op) : bool :=
-  match o with ONewEntities _ | ONewBatch _ _ _ _ => true | _ => false end.
+  match o with ONewEntities _ _ | ONewBatch _ _ _ _ _ => true | _ => false end.
 
 Definition returns_entity (o : op) : bool :=
   match o with ONewEntity | OUNew _ | OUNewRel _ _ | OCopy _ => true | _ => false end.
